@@ -521,4 +521,137 @@ theorem MixedTable.hook_canon (n : Node) (x : Expect) (hx : x ∈ Canon.mixedTab
   | stmt s => simp [Canon.mixedTable, ByValue.mixedTable] at hx
   | call c => simp [Canon.mixedTable, ByValue.mixedTable] at hx
 
+/-! ### duplicate_keys -/
+
+/-- the hypothesis that excludes the defect (raw text compared across quote kinds): a long-bracket
+string key contains no backslash and does not start with a line break, so that its raw text is its
+value; names contain no backslash (true of every identifier) -/
+def plainKey : Field → Bool
+  | .nameKey _ k _ => !k.text.toList.contains '\\'
+  | .exprKey _ (.str _ q lit) _ =>
+    q != .brackets || (!lit.toList.contains '\\' && lit.toList.head? != some '\n' && lit.toList.head? != some '\r')
+  | _ => true
+
+def plainKeys : Node → Bool
+  | .table _ fs => fs.toList.all plainKey
+  | _ => true
+
+theorem unesc_plain : (cs : List Char) → cs.contains '\\' = false → unesc .normal cs = bytesOf cs
+  | [], _ => by simp [unesc, bytesOf]
+  | c :: cs, h => by
+    simp only [List.contains_cons, Bool.or_eq_false_iff] at h
+    have hc : c ≠ '\\' := by
+      intro hc
+      simp [hc] at h
+    simp [unesc, bytesOf, hc, unesc_plain cs h.2]
+
+theorem dropLeadingNewline_plain (cs : List Char) (h1 : cs.head? ≠ some '\n') (h2 : cs.head? ≠ some '\r') :
+    dropLeadingNewline cs = cs := by
+  unfold dropLeadingNewline
+  split <;> simp_all
+
+/-- the value the key text denotes when it is read as a quoted string / as a numeral -/
+def DuplicateKeys.valOf : DuplicateKeys.Key → Doc.KeyVal
+  | ⟨.string, s⟩ => .str (unescape s.toList)
+  | ⟨.number, s⟩ => .num s
+
+theorem Doc.sameKey_valOf (k : DuplicateKeys.Key) : Doc.sameKey (DuplicateKeys.valOf k) (DuplicateKeys.valOf k) = true := by
+  obtain ⟨ty, s⟩ := k
+  cases ty <;> simp [DuplicateKeys.valOf, Doc.sameKey]
+
+theorem DuplicateKeys.keyVals_cons (f : Field) (rest : FieldList) (i : Nat) (hp : plainKey f = true) :
+    Doc.keyVals (.cons f rest) i =
+      ((DuplicateKeys.fieldKey f i).1.map DuplicateKeys.valOf, DuplicateKeys.fieldRange f) :: Doc.keyVals rest (DuplicateKeys.fieldKey f i).2 := by
+  cases f with
+  | nameKey sp k v =>
+    simp [plainKey] at hp
+    simp [Doc.keyVals, DuplicateKeys.fieldKey, DuplicateKeys.valOf, DuplicateKeys.fieldRange, unescape, unesc_plain _ (by simpa using hp)]
+  | noKey v => simp [Doc.keyVals, DuplicateKeys.fieldKey, DuplicateKeys.valOf, DuplicateKeys.fieldRange]
+  | unsupported sp => simp [Doc.keyVals, DuplicateKeys.fieldKey, DuplicateKeys.fieldRange]
+  | exprKey sp k v =>
+    cases k <;> try (simp [Doc.keyVals, DuplicateKeys.fieldKey, DuplicateKeys.expressionToKey, DuplicateKeys.valOf, DuplicateKeys.fieldRange]; done)
+    case str t q lit =>
+      simp only [Doc.keyVals, DuplicateKeys.fieldKey, DuplicateKeys.expressionToKey, DuplicateKeys.valOf, DuplicateKeys.fieldRange,
+        Option.map, strValue]
+      cases hq : (q == QuoteKind.brackets)
+      · simp [unescape]
+      · simp only [plainKey, bne, hq, Bool.not_true, Bool.false_or, Bool.and_eq_true, Bool.not_eq_true'] at hp
+        obtain ⟨⟨h1, h2⟩, h3⟩ := hp
+        have h2' : lit.toList.head? ≠ some '\n' := by simpa using h2
+        have h3' : lit.toList.head? ≠ some '\r' := by simpa using h3
+        simp [unescape, dropLeadingNewline_plain _ h2' h3', unesc_plain _ h1]
+
+theorem DuplicateKeys.lookup_mem (k : DuplicateKeys.Key) : (decl : List (DuplicateKeys.Key × Span)) → (sp : Span) →
+    DuplicateKeys.lookupKey k decl = some sp → (k, sp) ∈ decl
+  | [], _, h => by simp [DuplicateKeys.lookupKey] at h
+  | (k', s) :: rest, sp, h => by
+    simp only [DuplicateKeys.lookupKey] at h
+    split at h
+    · rename_i hk
+      simp at h
+      simp [hk, h]
+    · exact List.mem_cons_of_mem _ (DuplicateKeys.lookup_mem k rest sp h)
+
+theorem Doc.dupPairs_cons (earlier : List (Option Doc.KeyVal × Span)) (k : Option Doc.KeyVal) (s : Span)
+    (rest : List (Option Doc.KeyVal × Span)) (g : Diag) :
+    Doc.dupPairs earlier ((k, s) :: rest) g = (Doc.dupHere earlier k s g || Doc.dupPairs (earlier ++ [(k, s)]) rest g) := by
+  simp [Doc.dupPairs]
+
+theorem DuplicateKeys.fields_sound : (fs : FieldList) → (declared : List (DuplicateKeys.Key × Span)) →
+    (earlier : List (Option Doc.KeyVal × Span)) → (i : Nat) →
+    (∀ k sp, (k, sp) ∈ declared → (some (DuplicateKeys.valOf k), sp) ∈ earlier) →
+    fs.toList.all plainKey = true → (g : Diag) → g ∈ DuplicateKeys.fields fs declared i →
+    Doc.dupPairs earlier (Doc.keyVals fs i) g = true
+  | .nil, _, _, _, _, _, g, h => by simp [DuplicateKeys.fields] at h
+  | .cons f rest, declared, earlier, i, hinv, hplain, g, h => by
+    simp only [FieldList.toList, List.all_cons, Bool.and_eq_true] at hplain
+    rw [DuplicateKeys.keyVals_cons f rest i hplain.1, Doc.dupPairs_cons]
+    simp only [DuplicateKeys.fields] at h
+    have weaken : ∀ (e : Option Doc.KeyVal × Span) k sp, (k, sp) ∈ declared → (some (DuplicateKeys.valOf k), sp) ∈ earlier ++ [e] := by
+      intro e k sp hm
+      exact List.mem_append_left _ (hinv k sp hm)
+    cases hfk : DuplicateKeys.fieldKey f i with
+    | mk mk i' =>
+      simp only [hfk] at h ⊢
+      cases mk with
+      | none =>
+        simp only at h
+        simp only [Option.map, Doc.dupHere, Bool.false_or]
+        exact DuplicateKeys.fields_sound rest declared _ i' (weaken _) hplain.2 g h
+      | some key =>
+        simp only at h
+        cases hl : DuplicateKeys.lookupKey key declared with
+        | some original =>
+          simp only [hl, List.mem_cons] at h
+          rcases h with h | h
+          · have hm := hinv key original (DuplicateKeys.lookup_mem key declared original hl)
+            simp only [Option.map, Bool.or_eq_true]
+            left
+            simp only [Doc.dupHere, h, beq_self_eq_true, Bool.true_and, Doc.earlierSame, List.any_eq_true]
+            exact ⟨_, hm, by simp [Doc.sameKey_valOf]⟩
+          · simp only [Option.map, Bool.or_eq_true]
+            right
+            exact DuplicateKeys.fields_sound rest declared _ i' (weaken _) hplain.2 g h
+        | none =>
+          simp only [hl] at h
+          simp only [Option.map, Bool.or_eq_true]
+          right
+          refine DuplicateKeys.fields_sound rest _ _ i' ?_ hplain.2 g h
+          intro k sp hm
+          rcases List.mem_cons.mp hm with hm | hm
+          · simp at hm
+            simp [hm.1, hm.2]
+          · exact weaken _ k sp hm
+
+theorem DuplicateKeys.hook_sound (n : Node) (g : Diag) (h : g ∈ DuplicateKeys.hook n) (hp : plainKeys n = true) :
+    Doc.duplicateKeys n g = true := by
+  cases n with
+  | table sp fs =>
+    simp only [DuplicateKeys.hook] at h
+    simp only [plainKeys] at hp
+    exact DuplicateKeys.fields_sound fs [] [] 0 (by simp) hp g h
+  | expr e => simp [DuplicateKeys.hook] at h
+  | stmt s => simp [DuplicateKeys.hook] at h
+  | call c => simp [DuplicateKeys.hook] at h
+
 end Selene.Lints
